@@ -4,10 +4,10 @@ package main
 
 import (
 	"fmt"
-	"regexp"
 	"go/ast"
 	"go/token"
 	"go/types"
+	"regexp"
 	"sort"
 	"strings"
 
@@ -73,43 +73,43 @@ type FnCtx struct {
 	obls     []*Obligation
 	counts   map[string]int
 
-	entry      *State
-	paramVals  map[string]Val // spec name -> entry value
-	paramObjs  map[string]types.Object
-	resultObjs []types.Object // named results (may be nil entries)
-	resultName []string       // spec names of results
-	rets       []retExit
-	breaks     [][]*State
-	conts      [][]*State
-	iterStates []*State
-	loopOrd    int
-	litOrd     int
+	entry       *State
+	paramVals   map[string]Val // spec name -> entry value
+	paramObjs   map[string]types.Object
+	resultObjs  []types.Object // named results (may be nil entries)
+	resultName  []string       // spec names of results
+	rets        []retExit
+	breaks      [][]*State
+	conts       [][]*State
+	iterStates  []*State
+	loopOrd     int
+	litOrd      int
 	inlineDepth int
 	inlineStack []string
 	retStack    []*[]retExit
 
-	unmodelled  map[string]bool
-	trusted     map[string]bool
-	unsupported []string
-	strLits     map[string]string
-	factCache   map[string]bool
-	ghost       map[string]Val // ghost names introduced by spec (e.g. witnesses)
-	curProps    []string
-	sigStack    []*types.Signature
-	autoFrame   bool
-	callHeapKeys map[string]bool
-	deps        map[string]bool
-	isMacro     map[string]bool
-	ghostFns    map[string]string // ghost function name -> current SMT symbol
-	axiomsDone  map[string]bool
-	frameExcept []Val
-	frameWhole  []string // element heaps the function may write anywhere (assigns heap(T))
-	dispatchDepth int
-	knownInts   map[string]int64
-	capturedBinding map[string]Val // captured variables of the literal being called by contract
-	globalCache map[*types.Var]Val // one symbolic value per package-level variable (read-only within a call)
-	openBound   []string // bound variables of the quantifiers currently being evaluated
-	boxed       map[types.Object]bool // locals whose address is taken live in the pointer heap
+	unmodelled      map[string]bool
+	trusted         map[string]bool
+	unsupported     []string
+	strLits         map[string]string
+	factCache       map[string]bool
+	ghost           map[string]Val // ghost names introduced by spec (e.g. witnesses)
+	curProps        []string
+	sigStack        []*types.Signature
+	autoFrame       bool
+	callHeapKeys    map[string]bool
+	deps            map[string]bool
+	isMacro         map[string]bool
+	ghostFns        map[string]string // ghost function name -> current SMT symbol
+	axiomsDone      map[string]bool
+	frameExcept     []Val
+	frameWhole      []string // element heaps the function may write anywhere (assigns heap(T))
+	dispatchDepth   int
+	knownInts       map[string]int64
+	capturedBinding map[string]Val        // captured variables of the literal being called by contract
+	globalCache     map[*types.Var]Val    // one symbolic value per package-level variable (read-only within a call)
+	openBound       []string              // bound variables of the quantifiers currently being evaluated
+	boxed           map[types.Object]bool // locals whose address is taken live in the pointer heap
 }
 
 type KnownFinding struct {
@@ -455,7 +455,7 @@ func (c *FnCtx) copyFromStr(st *State, dref, doff, str, soff, n string) {
 	old := c.heapSym(st, key, "Int", 2)
 	nw := c.newHeapVersion(key)
 	c.declared[nw] = true
-		c.isMacro[nw] = true
+	c.isMacro[nw] = true
 	c.emit(fmt.Sprintf("(define-fun %s ((r Int) (i Int)) Int (ite (and (= r %s) (<= %s i) (< i (+ %s %s))) (sat %s (+ %s (- i %s))) (%s r i)))",
 		nw, dref, doff, doff, n, str, soff, doff, old))
 	st.heaps[key] = nw
@@ -597,7 +597,7 @@ func (c *FnCtx) makeSlice(st *State, elem types.Type, t types.Type, ln, cp strin
 			old := c.heapSym(st, key, sort, 2)
 			nw := c.newHeapVersion(key)
 			c.declared[nw] = true
-		c.isMacro[nw] = true
+			c.isMacro[nw] = true
 			c.emit(fmt.Sprintf("(define-fun %s ((r Int) (i Int)) %s (ite (= r %s) %s (%s r i)))", nw, sort, r, z[i].S, old))
 			st.heaps[key] = nw
 			i++
